@@ -152,8 +152,8 @@ theorem sim_ok : ∀ (n : Nat) (T : DTask) (loc : Env) (d : DSt) (o : List Event
         simp [taskOf, run, hv, hout, bind, Except.bind, pure, Except.pure]
       | call f args =>
         simp only [doc, bind_ok] at h
-        obtain ⟨vs, hvs, dm, hdm, scope, hsc, h2⟩ := h
-        rw [look_sim hl hg.glob] at hvs hdm
+        obtain ⟨fv, hfv, vs, hvs, dm, hdm, scope, hsc, h2⟩ := h
+        rw [look_sim hl hg.glob] at hfv hvs
         obtain ⟨m, hm, ms⟩ := getMacro_sim hg hdm
         obtain ⟨hp, hdw, hd1, hd2⟩ := ms
         have hg' : SimG d (st.push scope) := hg.of_same rfl rfl rfl
@@ -165,7 +165,7 @@ theorem sim_ok : ∀ (n : Nat) (T : DTask) (loc : Env) (d : DSt) (o : List Event
         simp only [taskOf] at r1
         rw [← hd1, ← hd2] at r1
         rw [hp] at hsc
-        simp [taskOf, run, hvs, hm, hsc, r1, bind, Except.bind, mapSt]
+        simp [taskOf, run, hfv, hvs, hm, hsc, r1, bind, Except.bind, mapSt]
     | dirs ds t =>
       have hdw : DirsWF ds t := hwf
       cases ds with
